@@ -36,8 +36,9 @@ type c11Packet struct {
 	Whitelist []string `json:"whitelist"`
 	Threshold string   `json:"threshold"`
 	// the packet
-	Denom        int    `json:"denom"`             // index into the denomination table
-	Channel      string `json:"channel,omitempty"` // destination channel (coins returning home; vouchers fix their channel)
+	Denom        int    `json:"denom"`                 // index into the denomination table
+	Channel      string `json:"channel,omitempty"`     // destination channel (coins returning home; vouchers fix their channel)
+	SrcChannel   string `json:"src_channel,omitempty"` // the counterparty's channel id, independent of the destination channel ("" = channel-9)
 	Amount       string `json:"amount"`
 	BadSender    bool   `json:"bad_sender,omitempty"`
 	BadRecipient bool   `json:"bad_recipient,omitempty"`
@@ -214,7 +215,7 @@ func (w *c11World) c11Exec(e *Env, kase *c11Case, gen func(ctx sdk.Context, i in
 			credited = nil
 			rcptTerm = "None"
 		}
-		packet := w.c11Packet(d, pk.Channel, amt.String(), sender, receiver)
+		packet := w.c11Packet(d, pk.SrcChannel, pk.Channel, amt.String(), sender, receiver)
 		ackIn := channeltypes.NewResultAcknowledgement([]byte{byte(1 + i%250)})
 
 		guarded := !pk.Enabled || !c11Contains(pk.Whitelist, packet.DestinationChannel) || isModule
@@ -297,6 +298,9 @@ func (w *c11World) c11Exec(e *Env, kase *c11Case, gen func(ctx sdk.Context, i in
 			guardKind = "module-recipient"
 		}
 		e.Stats.Count("kind:guard:" + guardKind)
+		if pk.Enabled {
+			e.Stats.Count(fmt.Sprintf("kind:whitelist:source-channel-in=%v,destination-channel-in=%v", c11Contains(pk.Whitelist, packet.SourceChannel), c11Contains(pk.Whitelist, packet.DestinationChannel)))
+		}
 		e.Stats.Count("kind:swap:" + swapKind)
 		e.Stats.Count("kind:conversion:" + convKind)
 		e.Stats.Count("kind:denom:" + d.Name)
@@ -452,7 +456,7 @@ func runC11(e *Env) {
 		nCases = 260
 	}
 	fees := []string{"0", "3000000000000000", "500000000000000000", "999999999999999999", "1"}
-	denomWeights := []int{0, 0, 0, 0, 0, 1, 2, 3, 3, 3, 4, 5, 5, 6}
+	denomWeights := []int{0, 0, 0, 0, 0, 1, 1, 1, 2, 3, 3, 3, 4, 5, 5, 6}
 	for c := 0; c < nCases; c++ {
 		kase := &c11Case{Fee: fees[e.Pick(len(fees))], Rcpt: fmt.Sprintf("U%d", e.Pick(c11Users)), PriorV: map[int]string{}}
 		if e.Chance(0.5) {
@@ -533,15 +537,20 @@ func runC11(e *Env) {
 			wlist = []string{}
 		case 3:
 			wlist = []string{"channel-00", "transfer", "channel-1"}
-		case 4:
+		case 4, 5:
 			wlist = []string{"channel-0"}
+		case 6, 7:
+			wlist = []string{"channel-1"}
+		case 8:
+			wlist = []string{"channel-5", "channel-1"}
 		}
 		nPackets := 1 + e.Pick(5)
 		w.c11Exec(e, kase, func(ctx sdk.Context, i int) (c11Packet, bool) {
 			if i >= nPackets {
 				return c11Packet{}, false
 			}
-			pk := c11Packet{Enabled: enabled, Whitelist: wlist, Threshold: thr.String(), Denom: main, Channel: []string{"channel-0", "channel-1", "channel-5"}[e.Pick(3)]}
+			pk := c11Packet{Enabled: enabled, Whitelist: wlist, Threshold: thr.String(), Denom: main, Channel: []string{"channel-0", "channel-1", "channel-5"}[e.Pick(3)],
+				SrcChannel: []string{"channel-0", "channel-1", "channel-5", "channel-9", "channel-00"}[e.Pick(5)]}
 			if e.Chance(0.08) {
 				pk.Denom = denomWeights[e.Pick(len(denomWeights))]
 			}
